@@ -54,6 +54,11 @@ class MessageExtractor:
                         )
                 continue
 
+            if isinstance(node, parsetree.NamespaceTag):
+                # defs written inside an inline <%namespace> carry messages too
+                yield from self.extract_nodes(node.nodes)
+                continue
+
             if isinstance(node, parsetree.DefTag):
                 code = node.function_decl.code
                 child_nodes = node.nodes
